@@ -38,9 +38,21 @@ def seed():
         return 1
 
 
+class LineStr(str):
+    """output of a child process: lines end at LF only.  str.splitlines also splits at VT, FF, FS/GS/RS, NEL (U+0085),
+    U+2028 and U+2029, which may occur unescaped inside the JSON strings the harness prints (NEL is not escaped by
+    encoding/json): a record containing one would be cut in two"""
+    def splitlines(self, keepends=False):
+        parts = self.split("\n")
+        if parts and parts[-1] == "":
+            parts.pop()
+        return [x + "\n" for x in parts] if keepends else parts
+
+
 def run(cmd, cwd=None, env=None, timeout=600, input=None, check=False):
     p = subprocess.run(cmd, cwd=cwd, env=env or os.environ, timeout=timeout, input=input,
                        stdout=subprocess.PIPE, stderr=subprocess.PIPE, text=True)
+    p.stdout, p.stderr = LineStr(p.stdout), LineStr(p.stderr)
     if check and p.returncode != 0:
         raise RuntimeError("command failed: %s\n%s\n%s" % (cmd, p.stdout[-4000:], p.stderr[-4000:]))
     return p
